@@ -135,7 +135,7 @@ func resolveAT(r *core.Run, rule string) *atWorld {
 var c02Idioms = []idiom{}
 
 func checkC02(r *core.Run) {
-	r.Explain = "Decided statically for every CFG path: (C02.order) in the AT driver.Tx.Commit implementation the step that reaches BranchRegister precedes, through its nil-error edge, the call of UndoLogManager.FlushUndoLog, which precedes through its nil-error edge the Commit of the target transaction; (C02.fail) after a failed register/flush/local commit the function returns a non-nil error, never commits afterwards and — once past register — passes a report of phase-one-failed; status table true->PhaseoneDone,false->PhaseoneFailed; (C02.txclosed) every exit of the AT Commit leaves the target transaction committed or rolled back, and the implicit-transaction wrapper of the AT connection ends every transaction it began; (C02.retry) the report loop is bounded by a non-zero constant MaxRetries and waits between attempts. NOT decided: durability (database transaction semantics), crash points, coordinator behaviour."
+	r.Explain = "Decided statically for every CFG path: (C02.order) in the AT driver.Tx.Commit implementation the step that reaches BranchRegister precedes, through its nil-error edge, the call of UndoLogManager.FlushUndoLog, which precedes through its nil-error edge the Commit of the target transaction; (C02.fail) after a failed register/flush/local commit the function returns a non-nil error, never commits afterwards and — once past register — passes a report of phase-one-failed; status table true->PhaseoneDone,false->PhaseoneFailed; (C02.txclosed) every exit of the AT Commit leaves the target transaction committed or rolled back, and the implicit-transaction wrapper of the AT connection ends every transaction it began; (C02.txclosed, also) no path leads from the target transaction's Commit to its Rollback (a finished transaction is not rolled back: what database/sql does with the bare driver, C16); (C02.retry) the report loop is bounded by a non-zero constant MaxRetries and waits between attempts. NOT decided: durability (database transaction semantics), crash points, coordinator behaviour."
 	r.Trusted = []string{"go/types, go/cfg", "database/sql: a driver Tx is finished only by its own Commit/Rollback", "CHA over repository types"}
 	w := r.W
 	a := resolveAT(r, "C02.anchor")
@@ -256,6 +256,13 @@ func checkC02(r *core.Run) {
 				r.Check(cp.Before.Has("ok:regstep") && !cp.Before.Maybe("localcommit"), "C02.order", key+"FlushUndoLog", w.Pos(cp.Call.Pos()),
 					"flush is reached only through the nil-error edge of the step that registers the branch, before any local commit",
 					"the undo log can be flushed without the branch-register step having succeeded first (or after the local commit)")
+			}
+			// a transaction whose Commit was called is finished whatever Commit answered (database/sql issues nothing
+			// after it): a rollback after that point is a second statement the bare driver would never see
+			if inSet("localrollback", cp.Tags...) {
+				r.Check(!cp.Before.Maybe("localcommit"), "C02.txclosed", key+"target Rollback only while the target Commit was not attempted", w.Pos(cp.Call.Pos()),
+					"no path from the target transaction's Commit to its Rollback",
+					"the target transaction can be rolled back after its Commit was called (a failed COMMIT): the driver sees ROLLBACK on a finished transaction — not what database/sql does with the bare driver (C16), and on a connection that already began the next transaction it rolls back someone else's work")
 			}
 			// the call that performs the local commit: either the driver call itself or a callee that must perform it
 			if inSet("localcommit", cp.Tags...) {
